@@ -358,7 +358,7 @@ def _case_strategy():
 
     # incl. the protocol-5 out-of-band buffer opcodes: whatever a tree does with them, it has to
     # do the same thing every time
-    prof = asm.full_profile(vocab.ASM_GLOBS, buffers=True)
+    prof = asm.full_profile(vocab.ASM_GLOBS + vocab.ASM_GLOBS_PY2, buffers=True)
     progs = asm.programs(prof, max_len=24).map(lambda p: p.data)
     nat = st.tuples(
         st.one_of(values.plain_values(), values.instance_values()), st.sampled_from(range(6))
